@@ -34,7 +34,9 @@ H = {
 }
 
 
-def binary_harness(cname, unique):
+def binary_harness(cname, unique, below=None):
+    """below: the class of the node that evaluates this one (None: evaluated directly); the cover contract of a node does not
+    depend on who asks"""
     prefix = f"{cname}._evaluate__"
 
     def run(vm):
@@ -46,7 +48,8 @@ def binary_harness(cname, unique):
                                                     "left_evaluated": False, "right_evaluated": False, "_conclusion_": None}, tag=cname)
         world.node = node
         h = H[cname](world.children["left"], world.children["right"])
-        gen = vm.call_method(node, "_evaluate__", Bnd(world.sigma0, world))
+        gen = vm.call_method(node, "_evaluate__", Bnd(world.sigma0, world)) if below is None else \
+            vm.call(vm._getattr(node, "_evaluate__"), [Bnd(world.sigma0, world)], {"parent": condition_parent(vm, below)})
         for res in vm.iterate(gen):
             ctx.cover("yielded")
             cl = world.record(vm, res)
@@ -61,10 +64,10 @@ def binary_harness(cname, unique):
         shared = [sigma0]
         hyps = call_hypotheses(worlds, shared)
         return finalize_cover(clauses, sigma0, shared, prefix, want_unique=unique, hyps=hyps)
-    return Harness(f"cover-{cname}", run, spec=Spec(), covers=["yielded"], finalize=fin, timeout_ms=3000, retry_unknown=False, ematching_only=True)
+    return Harness(f"cover-{cname}" if below is None else f"cover-{cname}<{below}", run, spec=Spec(), covers=["yielded"], finalize=fin, timeout_ms=3000, retry_unknown=False, ematching_only=True)
 
 
-def not_harness():
+def not_harness(below=None):
     prefix = "Not._evaluate__"
 
     def run(vm):
@@ -73,7 +76,8 @@ def not_harness():
         child = world.child("child", 11)
         node = vm.alloc(vm.loader.cls(SYM, "Not"), {"_child_": child, "_id_": 10, "_is_false_": False, "_eval_parent_": None, "_conclusion_": None}, tag="Not")
         h = lambda t: z3.Not(world.children["child"].h(t))
-        gen = vm.call_method(node, "_evaluate__", Bnd(world.sigma0, world))
+        gen = vm.call_method(node, "_evaluate__", Bnd(world.sigma0, world)) if below is None else \
+            vm.call(vm._getattr(node, "_evaluate__"), [Bnd(world.sigma0, world)], {"parent": condition_parent(vm, below)})
         for res in vm.iterate(gen):
             ctx.cover("yielded")
             cl = world.record(vm, res)
@@ -86,7 +90,7 @@ def not_harness():
             return []
         sigma0 = worlds[0].sigma0
         return finalize_cover(clauses, sigma0, [sigma0], prefix, want_unique=True, hyps=call_hypotheses(worlds, [sigma0]))
-    return Harness("cover-Not", run, spec=Spec(), covers=["yielded"], finalize=fin, timeout_ms=3000, retry_unknown=False, ematching_only=True)
+    return Harness("cover-Not" if below is None else f"cover-Not<{below}", run, spec=Spec(), covers=["yielded"], finalize=fin, timeout_ms=3000, retry_unknown=False, ematching_only=True)
 
 
 def h_canary():
@@ -327,7 +331,8 @@ def attribute_harness(role, below="Not", kind="Attribute"):
         vm.spec.opaque_hooks["getitem"] = lambda it, v, k: STerm(fa(v.t)) if isinstance(v, STerm) and k == 3 else it.raise_("KeyError", k)
         vm.spec.opaque_hooks["sterm_call"] = lambda it, v, a, k: STerm(fa(v.t)) if (list(a) == list(extra.get("_args_", ("no",))) and not k) else it.raise_("TypeError", "arguments")
         if role == "operand":
-            vm.spec.havoc_exclude = set(vm.spec.havoc_exclude) | {"_is_false_"}        # frame condition proved by frame-DomainMapping below
+            # whatever flag another position of the same node left behind (a node may be used as a condition AND as an operand)
+            node.fields["_is_false_"] = SBool(ctx.fresh_bool("flag_left_by_another_position"))
         ctx.assume(z3.Not(bound(world.sigma0, vid(22))))
         tree_shape(vm, world, 22, ["child"])
         C = world.children["child"]
@@ -351,7 +356,7 @@ def attribute_harness(role, below="Not", kind="Attribute"):
 
 
 def frame_domain_mapping():
-    """In operand role _build_operation_result_and_update_truth_value_ does not touch the node's truth flag."""
+    """In operand role _build_operation_result_and_update_truth_value_ reports a true result and does not touch the node's truth flag."""
     def run(vm):
         ctx = vm.ctx
         world = EqlWorld(vm)
@@ -362,8 +367,10 @@ def frame_domain_mapping():
             b = ctx.fresh_const("b", Bs)
             cr = vm.alloc(world.OR, {"bindings": Bnd(b, world), "is_false": False, "operand": None})
             r = vm.call_method(node, "_build_operation_result_and_update_truth_value_", cr, world.hashed(vm, ctx.fresh_const("v", Vs)))
-            ctx.check("DomainMapping._build_operation_result_and_update_truth_value_::operand-role-leaves-the-truth-flag-alone",
-                      z3.BoolVal(node.fields["_is_false_"] is start and r.fields["is_false"] is start))
+            # as an operand a value is a value: the result is never reported false, whatever flag another position of the same node
+            # left behind, and that flag (the condition position's) is left alone
+            ctx.check("DomainMapping._build_operation_result_and_update_truth_value_::operand-role-reports-true-and-leaves-the-truth-flag-alone",
+                      z3.BoolVal(node.fields["_is_false_"] is start and r.fields["is_false"] is False), detail=f"flag before {start}: result {r.fields['is_false']}, flag after {node.fields['_is_false_']}")
     return Harness("frame-DomainMapping", run, spec=Spec(), ematching_only=True)
 
 
@@ -578,7 +585,9 @@ _stage_a = harnesses
 
 
 def harnesses():
-    return _stage_a()[:-1] + [comparator_harness("generic"), comparator_harness("eq"), variable_harness("operand"), attribute_harness("operand"), attribute_harness("operand", kind="Index"), attribute_harness("operand", kind="Call"),
+    nested = [binary_harness(c, u, below=k) for k in condition_parent_kinds() for c, u in (("AND", True), ("ElseIf", True), ("Union", False))] + \
+        [not_harness(below=k) for k in condition_parent_kinds()]
+    return _stage_a()[:-1] + nested + [comparator_harness("generic"), comparator_harness("eq"), variable_harness("operand"), attribute_harness("operand"), attribute_harness("operand", kind="Index"), attribute_harness("operand", kind="Call"),
                               attribute_harness("operand", kind="Call0"), attribute_harness("condition", "AND", kind="Index"), attribute_harness("condition", "Not", kind="Call")] + \
         [variable_harness("condition", k) for k in condition_parent_kinds()] + [attribute_harness("condition", k) for k in condition_parent_kinds()] + \
         [hashed_value_harness(), frame_domain_mapping(),
